@@ -144,7 +144,7 @@ Json Program::to_json() const {
     o.set("id", Json::num(i)).set("type", Json::str(slot_type_names[s.type])).set("mod", Json::inum(s.mod)).set("n", Json::num(s.n)).set("size", Json::num(s.size)).set("sl", Json::num(s.sl));
     o.set("place", Json::inum(s.place)).set("off8", Json::inum(s.off8)).set("fill", Json::inum(s.fill)).set("owner", Json::inum(s.owner)).set("liballoc", Json::inum(s.liballoc));
     if (s.reserve) o.set("reserve", Json::num(s.reserve)).set("reserve_side", Json::inum(s.reserve_side));
-    if (s.neighbor_of >= 0) o.set("neighbor_of", Json::inum(s.neighbor_of));
+    if (s.neighbor_of >= 0) o.set("neighbor_of", Json::inum(s.neighbor_of)).set("interleaved", Json::inum(s.interleaved));
     if (s.input) o.set("input", Json::inum(s.input)).set("pattern", Json::inum(s.pattern)).set("bits", Json::inum(s.bits)).set("dseed", Json::num(s.dseed)).set("nnz", Json::inum(s.nnz));
     ss.push(o);
   }
@@ -212,6 +212,7 @@ bool Program::from_json(const Json& j, std::string& err) {
     x.reserve = s.u("reserve");
     x.reserve_side = (int)s.i("reserve_side");
     x.neighbor_of = (int)s.i("neighbor_of", -1);
+    x.interleaved = (int)s.i("interleaved");
     if (x.neighbor_of >= (int)slots.size()) x.neighbor_of = -1;  // only earlier slots can host a neighbour
     x.input = (int)s.i("input");
     x.pattern = (int)s.i("pattern");
